@@ -387,7 +387,7 @@ func judgeL1(c *Case, o obs1) []fail {
 	// grouping is required whenever the in-flight bound cannot be the reason for an early eviction: the stream has
 	// no more distinct events than the reassembler's limit, or (the property's own bound) never more than three
 	// kernel events are open at once while the limit was left at the daemon's own constant
-	open3 := c.Mode != "smallmax" && maxConcurrent(lines[:limit]) <= 3
+	open3 := c.MaxSz == auditd.VerifC15MaxEventsInFlight && maxConcurrent(lines[:limit]) <= 3
 	if !c.LateRecord && c.PauseMs == 0 && (len(distinct) <= c.MaxSz || open3) && !o.Slow {
 		seen := map[uint32]bool{}
 		for _, g := range o.Groups {
@@ -910,7 +910,11 @@ func coqCase1(c *Case, o obs1) (string, string) {
 		}
 		perr = fmt.Sprintf("(Some %d)", found)
 	}
-	return fmt.Sprintf("A1 (C1 %d %d %s [%s]\n  [%s] %s %s [%s] %s %d)", c.MaxSz, c.TimeoutMs, natList(c.FailAt), strings.Join(its, "; "),
+	ctor := "A1"
+	if orderBySource(c.Mode) {
+		ctor = "A1W" // compared with the model ordered by the source's Less
+	}
+	return fmt.Sprintf(ctor+" (C1 %d %d %s [%s]\n  [%s] %s %s [%s] %s %d)", c.MaxSz, c.TimeoutMs, natList(c.FailAt), strings.Join(its, "; "),
 		strings.Join(gs, ";"), natList(o.Handed), optNat(o.SlotK >= 0, o.SlotK), strings.Join(lost, ";"), perr, o.Consumed), ""
 }
 
